@@ -140,6 +140,16 @@ func corpus(e *ev.Env) {
 			rq("500").async(1100), rq("200"), rq("200"), rq("200").after(2000), rq("200"), rq("200")))
 	}
 
+	// ---- a storage that keeps the value slices it is given (in-process storages do): what is
+	// stored for one key must not change when another key is written (A A B, then A: 429)
+	for _, w := range []tcfg{fixedW(2, 3), slidingW(2, 3)} {
+		cfg := sto(w).keys(3)
+		cfg.RefStore = true
+		hist(e, "storage-keeps-value-slices-"+cfg.algo(), cfg, steps(
+			rq("200"), rq("200"), rq("200").key(1), rq("200"), rq("200").key(2), rq("200").key(1), rq("200"), rq("200").key(1),
+			rq("200").after(3000), rq("200").key(1), rq("200"), rq("200").key(2), rq("200")))
+	}
+
 	// ---- probe, not a verdict: fiber.Storage documents "Empty key or value will be ignored"
 	// for Set. A KeyGenerator that returns "" (the documentation's own example reads a header
 	// that may be absent) therefore is never limited on an external storage.
